@@ -22,7 +22,10 @@ CHECKS = {
             'Span arithmetic checked on every strictly parseable string <= 3 (quick) / <= 4 tokens '
             '(thorough; <= 5 on a reduced alphabet) over the LaTeX-significant alphabet under the '
             'default and an every-argument-type context, plus thousands of grammar documents; '
-            'tolerant results checked for range/nesting. Exhaustive within the token bound only.',
+            'tolerant results checked for range/nesting; also a context with the less common parser '
+            'classes the library ships (comma list, chars group, embellishments, verbatim environment '
+            'body ...). Thorough adds 16 coverage-guided atheris campaigns with the span oracle inside '
+            'the target. Exhaustive within the token bound only.',
             'Trusts the span checker (pv/spans.py, plain integer arithmetic on public attributes) '
             'and that % / \\ are the comment / escape characters.',
             'DESIGN.md 5 C01'),
@@ -67,7 +70,8 @@ CHECKS = {
             'LatexWalkerParseError (pos in range, line/col = counting model); every single '
             'unmatched delimiter inserted at every token boundary outside comments of generated '
             'verbatim-free documents must be rejected. Enumerates all faults of the stated family '
-            'on the generated documents; documents themselves are sampled.',
+            'on the generated documents; documents themselves are sampled. Error locations are checked '
+            'under non-default walker line/column offsets too; thorough adds 16 atheris campaigns.',
             'Parity argument for rejection; token boundaries from the independent mini tokenizer; '
             'documents are verbatim-free so every boundary is outside verbatim text.',
             'DESIGN.md 5 C05'),
@@ -77,7 +81,9 @@ CHECKS = {
             'Tolerant parsing of every soup <= 3/4 tokens, random 40-token soups, documents and '
             'composites terminates without exception, returns a node list, equals the strict tree '
             'whenever strict succeeds, and keeps the nodes of a well-formed prefix before a stray '
-            'closing token (also when the error is nested in a later construct).',
+            'closing token (also when the error is nested in a later construct) and, for documents with '
+            'nothing closed at the end of input, every chars node that precedes the strict error '
+            'position. Thorough adds 16 atheris campaigns with the same oracle inside the target.',
             'Termination = bound on token-reader calls (200*(n+8)); prefix preservation is checked '
             'for prefixes closed by a group.',
             'DESIGN.md 5 C06'),
@@ -87,7 +93,8 @@ CHECKS = {
             'Every name of the default walker and latex2text databases (read at run time) in ~24 '
             'macro / 17 environment call shapes, crossed with a pairwise-covering (quick) or the '
             'full 240-element (thorough) option product; plus all soups <= 2/3 tokens and '
-            'generated documents.',
+            'generated documents; thorough adds 16 atheris campaigns (raw text and token-level byte '
+            'decodings) with the oracle inside the target.',
             'Default context databases and default tolerant parsing; termination decided by the '
             'read-count bound.',
             'DESIGN.md 5 C07'),
@@ -156,7 +163,8 @@ CHECKS = {
             'character of both built-in tables, random mixtures with arbitrary code points, each '
             'under 2 rule sets x 5 protections x 5 policies: output parses strictly, braces '
             'balance, no comment / environment / foreign math node, ASCII-only where promised, '
-            'ValueError exactly where the tables say.',
+            'ValueError exactly where the tables say; inputs with unknown characters also with the '
+            'unknown_char_warning option left at its default.',
             'Default walker context for the strict parse; 13 combining characters of the '
             'unicode-xml table are listed known findings and excluded by construction.',
             'DESIGN.md 5 C13'),
@@ -219,7 +227,8 @@ CHECKS = {
             'Thousands (quick) / ~100k (thorough) trees with every node kind, absent and present '
             'arguments, list-valued arguments and (tolerant) missing bodies; the complete callback '
             'log (callback, object identity, children results) must equal the harness\'s own '
-            'post-order.',
+            'post-order; each tree is visited by a recorder returning unique tokens, by one returning '
+            'falsy values and by one that only reimplements visit().',
             'Child enumeration is the harness\'s own (arguments in order, then body); documented '
             'defaults accepted for missing bodies.',
             'DESIGN.md 5 C19'),
